@@ -1671,14 +1671,9 @@ func parseNestedFunctionsInternal(expr string, aggFields []types.AggregationFiel
 			switch fn.GetType() {
 			case functions.TypeAggregation, functions.TypeAnalytical, functions.TypeWindow:
 				// 生成唯一占位符
-				callHash := 0
-				for _, c := range fullFuncCall {
-					callHash = callHash*31 + int(c)
-				}
-				if callHash < 0 {
-					callHash = -callHash
-				}
-				placeholder := fmt.Sprintf("__%s_%d__", funcName, callHash)
+				// The hex form of the call text: distinct calls never share a placeholder
+				// (a multiply-by-31 hash gave sum(Aa) and sum(BB) the same one)
+				placeholder := fmt.Sprintf("__%s_%x__", funcName, fullFuncCall)
 
 				// 解析函数参数
 				inputField := strings.TrimSpace(funcParam)
